@@ -32,6 +32,7 @@ ASSUMPTIONS = [
     "regressors without intercept; exact least squares for the limits and the grid, ridge for optimality w.r.t. its own Yhat",
     "slack 1e-8 x ||.||^2 on monotonicity, 1e-6 x tr K~ on the optimum",
 ]
+RULE = RULE + " " + pc._routes_rule() + " One case in 40 adds a table of more than 4096 rows (the data stacked r times against the data times sqrt r)."
 GRID = np.linspace(0.0, 1.0, 9)
 
 
